@@ -7,6 +7,9 @@ package scentarget
 //   gtoobig  a 6 MB reply (larger than the client's default 4 MB receive limit)
 //   gslow    never answer: wait for the caller's deadline, then fail
 //   gkill    close the TCP connection the call arrived on
+//   gkillmid send the response headers, THEN close the TCP connection (the stream ends in the middle)
+//   gempty   status OK with an EMPTY reply message (no field set)
+//   ggarbage status OK with a message whose bytes are no HelloResponse (cannot be decoded)
 
 import (
 	"context"
@@ -20,6 +23,8 @@ import (
 	"github.com/yandex/pandora/examples/grpc/server"
 	"google.golang.org/grpc"
 	"google.golang.org/grpc/codes"
+	"google.golang.org/grpc/encoding"
+	_ "google.golang.org/grpc/encoding/proto" // registers the proto codec that garbleCodec wraps
 	"google.golang.org/grpc/metadata"
 	"google.golang.org/grpc/peer"
 	"google.golang.org/grpc/reflection"
@@ -61,13 +66,26 @@ func (l *trackListener) kill(remote string) {
 	}
 }
 
+// garbleCodec is the server's codec: the standard proto codec, except that the reply marked garbleMarker goes out as
+// bytes that are no protobuf message at all
+const garbleMarker = "\x00garble\x00"
+
+type garbleCodec struct{ encoding.Codec }
+
+func (c garbleCodec) Marshal(v interface{}) ([]byte, error) {
+	if r, ok := v.(*server.HelloResponse); ok && r.GetHello() == garbleMarker {
+		return []byte{0xff, 0xff, 0xff, 0xff, 0xff, 0xff, 0xff, 0xff, 0xff, 0xff, 0x7f, 0x00, 0x0a, 0xff}, nil
+	}
+	return c.Codec.Marshal(v)
+}
+
 func NewGrpcTarget() *GrpcTarget {
 	ln, err := net.Listen("tcp", "127.0.0.1:0")
 	if err != nil {
 		panic(err)
 	}
 	t := &GrpcTarget{ln: &trackListener{Listener: ln, conns: map[string]net.Conn{}}, Hold: 300 * time.Millisecond}
-	t.srv = grpc.NewServer()
+	t.srv = grpc.NewServer(grpc.ForceServerCodec(garbleCodec{encoding.GetCodec("proto")}))
 	server.RegisterTargetServiceServer(t.srv, t)
 	reflection.Register(t.srv)
 	go t.srv.Serve(t.ln)
@@ -106,6 +124,16 @@ func (t *GrpcTarget) Hello(ctx context.Context, r *server.HelloRequest) (*server
 		// fail - whatever a starved client gets to see, it is not a success
 		<-ctx.Done()
 		return nil, status.Error(codes.DeadlineExceeded, "scripted gslow")
+	case letter == "gempty":
+		return &server.HelloResponse{}, nil
+	case letter == "ggarbage":
+		return &server.HelloResponse{Hello: garbleMarker}, nil
+	case letter == "gkillmid":
+		_ = grpc.SendHeader(ctx, metadata.Pairs("x-mid", "1"))
+		if p, ok := peer.FromContext(ctx); ok {
+			t.ln.kill(p.Addr.String())
+		}
+		return nil, status.Error(codes.Internal, "connection killed after the headers")
 	case letter == "gkill":
 		if p, ok := peer.FromContext(ctx); ok {
 			t.ln.kill(p.Addr.String())
